@@ -78,7 +78,7 @@ Ltac finQ :=
 Lemma step_invQ i0 hw s c s' : step repaired s c = Some s' -> InvA s -> InvQ i0 hw s -> InvQ i0 hw s'.
 Proof.
   unfold step. destruct (panic s) eqn:Hp; [discriminate|].
-  intros H [A1 A2 A3 A4 A5 A6 A7 A8 A9 A10 A11 A12 A13 A14 A15] [Q0 Q1 Q2 Q3 Q4 Q5 Q6 Q7 K1 K2 K3 K4 R1 R2 R3 R4 R5].
+  intros H [A1 A2 A3 A4 A5 A6 A7 A8 A9 A10 A11 A12 A13 A14 A15 A16] [Q0 Q1 Q2 Q3 Q4 Q5 Q6 Q7 K1 K2 K3 K4 R1 R2 R3 R4 R5].
   destruct c.
   - unfold send_step in H; dmatch H; inv H; constructor; cbn; auto. all: finQ.
   - unfold writer_step in H; dmatch H; inv H; constructor; cbn; auto. all: finQ.
@@ -192,3 +192,46 @@ Lemma inv_counters i0 hw s : Inv i0 hw s ->
   bsent s = (sumsz (wire s) - wpendsz (wp s))%Z /\
   precv s = Z.of_nat (length (rframes s)) /\ brecv s = sumsz (rframes s).
 Proof. intros [_ Q]. repeat split; apply Q. Qed.
+
+(* ------------------------------------------------------------------ statements over all runs *)
+Section Runs.
+  Variables (oc kc ic ec : nat) (en hw hr : bool) (sds : list (list pkt)) (cls : list (bool * Z))
+            (input : list inp) (inq0 : list pkt) (errq0 : list Z).
+  Let s0 := init oc kc ic ec en hw hr sds cls input inq0 errq0.
+
+  Lemma reach cs : Inv input hw (run repaired s0 cs).
+  Proof. apply run_inv, init_inv. Qed.
+
+  Lemma fifo_once cs : let s := run repaired s0 cs in
+    prefix (wire s) (filter pok (accepted s)) /\
+    (NoDup (map pid (accepted s)) -> NoDup (map pid (wire s))).
+  Proof. intros s. split; [exact (inv_fifo _ _ _ (reach cs))|exact (inv_nodup _ _ _ (reach cs))]. Qed.
+
+  Lemma close_flushes cs j cl : let s := run repaired s0 cs in
+    hw = true ->
+    nth_error (closers s) j = Some cl -> graceful cl = true -> cp cl = CRet true ->
+    fin s = true /\ wp s = WExited /\ liver (rp s) = 0 /\
+    prefix (acc_cas s) (gone s) /\
+    (wbroken s = false -> prefix (filter pok (acc_cas s)) (wire s)).
+  Proof.
+    intros s Hw Hn Hg Hc.
+    destruct (inv_close_flushes _ _ _ _ _ (reach cs) Hn Hg Hc) as (F & _ & R & X).
+    destruct (X Hw) as (W & P1 & P2). repeat split; auto.
+  Qed.
+
+  Lemma fin_is_last cs : let s := run repaired s0 cs in
+    fin s = true -> livew (wp s) = 0 /\ liver (rp s) = 0.
+  Proof. intros s. exact (inv_fin_final _ _ _ (reach cs)). Qed.
+
+  Lemma inbound_once cs : let s := run repaired s0 cs in
+    prefix (delivered s) (frames_prefix input) /\
+    (exists l, rframes s = delivered s ++ l /\ length l <= 1) /\
+    prefix (rframes s) (frames_prefix input).
+  Proof. intros s. exact (inv_inbound _ _ _ (reach cs)). Qed.
+
+  Lemma counters cs : let s := run repaired s0 cs in
+    psent s = (Z.of_nat (length (wire s)) - wpendn (wp s))%Z /\
+    bsent s = (sumsz (wire s) - wpendsz (wp s))%Z /\
+    precv s = Z.of_nat (length (rframes s)) /\ brecv s = sumsz (rframes s).
+  Proof. intros s. exact (inv_counters _ _ _ (reach cs)). Qed.
+End Runs.
